@@ -539,7 +539,7 @@ def _ac_search(ctx, model):
     mem = uu.members.get("map_commut_assoc")
     if mem is None or mem.kind != "func":
         raise AnalysisError("UnidirectionalUnifier.map_commut_assoc not found")
-    fn = mem.node
+    fn = model.inlined(mem.node)
     m = uu.module
     loc = lambda n=None: m.loc(n if n is not None else fn)   # noqa: E731
     nested = _nested(fn)
@@ -563,49 +563,93 @@ def _ac_search(ctx, model):
 
     # -- the children of the pattern are split into two lists
     split = None
-    for s in fn.body:
-        if isinstance(s, ast.For) and _u(s.iter) == f"{expr_p}.children":
-            split = s
+    for s_ in fn.body:
+        if isinstance(s_, ast.For) and _u(s_.iter) == f"{expr_p}.children":
+            split = s_
             break
-    if split is None or not isinstance(split.target, ast.Name):
-        raise AnalysisError("map_commut_assoc: the loop that splits "
-                            "expr.children was not recognised")
-    child = split.target.id
-    dest = {}      # list name -> set of polarities of the isinstance(Variable) test
-    nsplit = 0
-    for path in paths(fn, "1", body=split.body):
-        apps = [it[1].value for it in path if it[0] == "stmt" and isinstance(
-            it[1], ast.Expr) and isinstance(it[1].value, ast.Call) and isinstance(
-            it[1].value.func, ast.Attribute) and it[1].value.func.attr == "append"
-            and len(it[1].value.args) == 1 and _u(it[1].value.args[0]) == child]
-        nsplit += 1
-        isvar = None
-        for it in path:
-            if it[0] == "cond":
-                if f"isinstance({child},Variable)" in _u(it[1]):
-                    isvar = it[2]
-        ok = len(apps) == 1 and isvar is not None
-        ctx.ob(f"{tag}/children-split/exactly-one-list", ok, loc(split),
-               "every child of the pattern goes to exactly one of the two lists"
-               if ok else "a child of the pattern is appended to "
-               f"{len(apps)} list(s) on one path of the split loop: it is "
-               "matched twice or not at all")
-        if ok:
-            dest.setdefault(_u(apps[0].func.value), set()).add(isvar)
-    pvc = [k for k, v in dest.items() if v == {True}]
-    nv = [k for k, v in dest.items() if False in v]
-    if len(pvc) != 1 or len(nv) != 1:
-        ok = False
+    pvc = nv = None
+    split_src = ""
+    if split is not None and isinstance(split.target, ast.Name):
+        child = split.target.id
+        dest = {}   # list name -> polarities of the isinstance(Variable) test
+        for path in paths(fn, "1", body=split.body):
+            apps = [it[1].value for it in path if it[0] == "stmt" and isinstance(
+                it[1], ast.Expr) and isinstance(it[1].value, ast.Call)
+                and isinstance(it[1].value.func, ast.Attribute)
+                and it[1].value.func.attr == "append"
+                and len(it[1].value.args) == 1
+                and _u(it[1].value.args[0]) == child]
+            isvar = None
+            for it in path:
+                if it[0] == "cond":
+                    if f"isinstance({child},Variable)" in _u(it[1]):
+                        isvar = it[2]
+            ok = len(apps) == 1 and isvar is not None
+            ctx.ob(f"{tag}/children-split/exactly-one-list", ok, loc(split),
+                   "every child of the pattern goes to exactly one of the two "
+                   "lists" if ok else "a child of the pattern is appended to "
+                   f"{len(apps)} list(s) on one path of the split loop: it is "
+                   "matched twice or not at all")
+            if ok:
+                dest.setdefault(_u(apps[0].func.value), set()).add(isvar)
+        pvcs = [k for k, v in dest.items() if v == {True}]
+        nvs = [k for k, v in dest.items() if False in v]
+        if len(pvcs) == 1 and len(nvs) == 1:
+            pvc, nv = pvcs[0], nvs[0]
+        split_src = _u(split)
+    else:
+        # two comprehensions over the children with complementary filters
+        comps = []
+        for s_ in fn.body:
+            if isinstance(s_, ast.Assign) and isinstance(
+                    s_.value, ast.ListComp) and len(s_.targets) == 1 and \
+                    isinstance(s_.targets[0], ast.Name):
+                g = s_.value.generators[0]
+                if _u(g.iter) == f"{expr_p}.children" and len(g.ifs) == 1 and \
+                        isinstance(g.target, ast.Name) and \
+                        _u(s_.value.elt) == g.target.id:
+                    import copy as _copy
+                    c_ = _copy.deepcopy(g.ifs[0])
+                    for n_ in ast.walk(c_):
+                        if isinstance(n_, ast.Name) and n_.id == g.target.id:
+                            n_.id = "CHILD"
+                    comps.append((s_.targets[0].id, _u(c_), s_))
+        if len(comps) != 2:
+            raise AnalysisError("map_commut_assoc: the split of expr.children "
+                                "into free variables and other children was not "
+                                "recognised")
+        (n1, c1, s1), (n2, c2, s2) = comps
+
+        def negation_of(a_, b_):
+            return a_ in (f"not({b_})", f"not{b_}") or (
+                b_.startswith("(") and a_ == f"not{b_}")
+        if negation_of(c2, c1):
+            pvc, nv, pos = n1, n2, c1
+        elif negation_of(c1, c2):
+            pvc, nv, pos = n2, n1, c2
+        else:
+            pos = None
+        ok = pos is not None
+        ctx.ob(f"{tag}/children-split/exactly-one-list", ok, loc(s1),
+               "the two lists are selected by complementary filters: every "
+               "child goes to exactly one of them" if ok else
+               f"the two filters over the pattern's children ('{c1}' / '{c2}') "
+               "are not each other's negation: a child can be in both lists or "
+               "in neither")
+        split = s1
+        child = "CHILD"
+        split_src = pos or ""
+        if ok and "isinstance(CHILD,Variable)" not in pos:
+            pvc = nv = None
+    if pvc is None or nv is None:
         ctx.ob(f"{tag}/children-split/lists", False, loc(split),
-               f"the split produces variable list(s) {pvc} and other list(s) {nv}; "
-               "expected one of each")
+               "the split does not produce one list of free variables and one "
+               "list of everything else")
         return
-    pvc, nv = pvc[0], nv[0]
     ctx.ob(f"{tag}/children-split/lists", True, loc(split),
            f"free variables -> {pvc}, everything else -> {nv}")
     # a plain variable is 'free' only if it is a declared candidate
-    ok = f"{child}.namein self.lhs_mapping_candidates".replace(" ", "") in \
-        _u(split) or f"{child}.nameinself.lhs_mapping_candidates" in _u(split)
+    ok = f"{child}.nameinself.lhs_mapping_candidates" in split_src
     ctx.ob(f"{tag}/children-split/candidates-only", ok, loc(split),
            "only declared pattern variables are treated as free" if ok else
            "the split no longer tests membership in lhs_mapping_candidates")
@@ -1141,37 +1185,17 @@ def _replacement(ctx, model):
         "tuple": ("seq", "tuple", frm(("elem", V)), V, ()),
     }
     kinds = set()
-    for ps in summarize(fn, node_param=False, loop_mode="1"):
-        kind = None
-        for _, pol, v in ps.conds:
-            if pol and isinstance(v, tuple) and v[0] == "call" and \
-                    v[1] == "isinstance" and v[2][0] == V:
-                t = str(v[2][1])
-                kind = "expression" if "MatchpyExpression" in t else \
-                    "multiset" if "Multiset" in t else \
-                    "tuple" if "tuple" in t else t
-        if ps.term == "raise":
-            continue
-        if kind is None or kind not in forms:
-            raise AnalysisError(f"ToFromReplacement.__call__: binding kind {kind} "
-                                "has no reference conversion")
-        kinds.add(kind)
-        rv = ps.retval
-        conv = None
-        if isinstance(rv, tuple) and rv[0] == "call" and \
-                rv[1] == "self.to_matchpy_expr" and len(rv[2]) == 1:
-            inner = rv[2][0]
-            if inner[0] == "call" and inner[1] == "self.f" and not inner[2] and \
-                    len(inner[3]) == 1 and inner[3][0][0] is None:
-                d = inner[3][0][1]
-                if d[0] == "dict" and d[1] == ("key", KW) and \
-                        d[3] == ("items", KW):
-                    conv = d[2]
-        if conv is None:
-            ctx.ob(f"T/matchpy/replacement/{kind}/callback-gets-all-bindings",
-                   False, where(mem), "the result is not "
-                   "to_matchpy_expr(f(**{name: converted binding}))")
-            continue
+
+    def kind_of_test(v):
+        if isinstance(v, tuple) and v[0] == "call" and v[1] == "isinstance" and \
+                v[2][0] == V:
+            t = str(v[2][1])
+            return "expression" if "MatchpyExpression" in t else \
+                "multiset" if "Multiset" in t else \
+                "tuple" if "tuple" in t else t
+        return None
+
+    def judge(kind, conv):
         ok = conv == forms[kind]
         if kind == "multiset" and not ok:
             # iterating a multiset repeats each element by its count, so an
@@ -1186,6 +1210,57 @@ def _replacement(ctx, model):
                f"a {kind} binding reaches the callback as {_short_v(conv)}; "
                f"expected {_short_v(forms[kind])} (for a multiset: every element "
                "converted, its count kept)")
+
+    for ps in summarize(fn, node_param=False, loop_mode="1"):
+        kind = None
+        for _, pol, v in ps.conds:
+            if pol and isinstance(v, tuple) and v[0] == "call" and \
+                    v[1] == "isinstance" and v[2][0] == V:
+                t = str(v[2][1])
+                kind = "expression" if "MatchpyExpression" in t else \
+                    "multiset" if "Multiset" in t else \
+                    "tuple" if "tuple" in t else t
+        if ps.term == "raise":
+            continue
+        rv = ps.retval
+        conv = None
+        if isinstance(rv, tuple) and rv[0] == "call" and \
+                rv[1] == "self.to_matchpy_expr" and len(rv[2]) == 1:
+            inner = rv[2][0]
+            if inner[0] == "call" and inner[1] == "self.f" and not inner[2] and \
+                    len(inner[3]) == 1 and inner[3][0][0] is None:
+                d = inner[3][0][1]
+                if d[0] == "dict" and d[1] == ("key", KW) and \
+                        d[3] == ("items", KW):
+                    conv = d[2]
+        if conv is not None and conv[0] != "ifexp":
+            if kind is None or kind not in forms:
+                raise AnalysisError("ToFromReplacement.__call__: binding kind "
+                                    f"{kind} has no reference conversion")
+            kinds.add(kind)
+        if conv is None:
+            ctx.ob(f"T/matchpy/replacement/{kind}/callback-gets-all-bindings",
+                   False, where(mem), "the result is not "
+                   "to_matchpy_expr(f(**{name: converted binding}))")
+            continue
+        if conv[0] == "ifexp":
+            # the case distinction is a conditional expression (helper inlined
+            # into a comprehension): judge every arm under its own test
+            arm = conv
+            while isinstance(arm, tuple) and arm[0] == "ifexp":
+                k_ = kind_of_test(getattr(arm[1], "val", None))
+                if k_ is None or k_ not in forms:
+                    raise AnalysisError("ToFromReplacement.__call__: binding kind "
+                                        f"{k_} has no reference conversion")
+                kinds.add(k_)
+                judge(k_, arm[2])
+                arm = arm[3]
+            if not (isinstance(arm, tuple) and arm[0] == "call"
+                    and arm[1] == "__raises__"):
+                raise AnalysisError("ToFromReplacement.__call__: the case "
+                                    "distinction does not end in a refusal")
+            continue
+        judge(kind, conv)
     ctx.ob("T/matchpy/replacement/kinds", kinds == set(forms), where(mem),
            f"binding kinds converted: {sorted(kinds)}")
 
